@@ -26,6 +26,11 @@ type vStoreDocM struct {
 	session   int
 }
 
+// file-system faults injected into one Flush (c09 mode): the n-th call of a kind fails with EIO
+// (FlushFault(A,B,0): the B-th call of kind vC09FaultKinds[A] made from now on fails; used by the
+// exhaustive fault sweep vC09FaultSweep, not offered in the BFS alphabet)
+var vC09FaultKinds = []string{"create", "write", "stat", "remove", "openfile", "writestring", "mkdirall", "readdir", "open", "rename"}
+
 type vStoreSys struct {
 	c        *vCtx
 	cfg      vStoreCfg
@@ -45,6 +50,7 @@ type vStoreSys struct {
 	compacts int
 	nBg      int // Compact / Tick operations used (bounded in c09 mode)
 	nRemOps  int
+	nFault   int // flushes with an injected file-system fault (c09 mode, at most one per history)
 	segNames map[string]string // every segment file ever created -> content hash when completed
 	logSeen  int
 }
@@ -64,6 +70,7 @@ func (s *vStoreSys) Reset() {
 	s.compacts = 0
 	s.nBg = 0
 	s.nRemOps = 0
+	s.nFault = 0
 	s.segNames = map[string]string{}
 	s.logSeen = 0
 	var err error
@@ -135,6 +142,79 @@ func (s *vStoreSys) Enabled() []vOp {
 	return ops
 }
 
+// vC09FaultSweep: EVERY file-system call of a Flush (and of the final flush inside Close)
+// fails in turn. For each base history the fault-free run counts the calls per kind; then
+// for every (kind, n) the n-th call of that kind fails with EIO, followed by every
+// continuation of a small menu, and the store is reopened with fresh templates: whatever
+// the faulted call answered, each Flush()/Close() that returned nil promised durability.
+func vC09FaultSweep(c *vCtx, cfg vStoreCfg) {
+	add := func(id, doc int) vOp { return vOp{K: "AddWithID", A: id, B: doc} }
+	bases := [][]vOp{{add(1, 0)}, {add(1, 0), add(2, 1)}, {add(1, 0), {K: "Flush"}, add(2, 1)}}
+	conts := [][]vOp{{{K: "CloseReopen"}}, {{K: "Flush"}, {K: "CloseReopen"}}, {add(3, 2), {K: "Flush"}, {K: "CloseReopen"}}, {{K: "Flush"}, {K: "Flush"}, {K: "CloseReopen"}, add(3, 2), {K: "CloseReopen"}}}
+	run := func(hist []vOp) *vStoreSys {
+		s := &vStoreSys{c: c, cfg: cfg, cfgS: "c09 " + cfg.String(), mode: "c09", maxAdd: 4, maxSess: 4}
+		s.Reset()
+		for i, op := range hist {
+			s.Apply(op, hist[:i], i >= len(hist)-1 || hist[i].K == "CloseReopen")
+			c.Transitions++
+		}
+		c.Traces++
+		c.NewState(s.cfgS + strings.Join(vHistStrings(hist), ";"))
+		return s
+	}
+	for _, base := range bases {
+		for _, faulted := range []string{"FlushFault", "CloseReopen"} {
+			// count the calls of the fault-free operation
+			s := &vStoreSys{c: c, cfg: cfg, cfgS: "c09 " + cfg.String(), mode: "c09", maxAdd: 4, maxSess: 4}
+			s.Reset()
+			for i, op := range base {
+				s.Apply(op, base[:i], false)
+			}
+			before := map[string]int{}
+			for _, k := range vC09FaultKinds {
+				before[k] = s.env.fs.Count(k)
+			}
+			if faulted == "FlushFault" {
+				s.Apply(vOp{K: "Flush"}, base, false)
+			} else {
+				s.env.do(func() { s.st.Close() })
+			}
+			counts := map[string]int{}
+			for _, k := range vC09FaultKinds {
+				counts[k] = s.env.fs.Count(k) - before[k]
+			}
+			s.env.end()
+			s.env = nil
+			for ki, k := range vC09FaultKinds {
+				for n := 1; n <= counts[k]; n++ {
+					if c.Expired() {
+						c.Bound = "fault sweep: deadline"
+						return
+					}
+					for _, cont := range conts {
+						var hist []vOp
+						hist = append(hist, base...)
+						if faulted == "FlushFault" {
+							hist = append(hist, vOp{K: "FlushFault", A: ki, B: n})
+						} else {
+							hist = append(hist, vOp{K: "CloseReopen", A: ki + 1, B: n})
+						}
+						hist = append(hist, cont...)
+						fs := run(hist)
+						fs.env.end()
+						fs.env = nil
+						c.Nontrivial(fs.cfgS + strings.Join(vHistStrings(hist), ";"))
+					}
+				}
+			}
+		}
+	}
+	c.Sample(cfg.String() + ": every file-system call of a Flush / of Close's final flush fails in turn; 3 base histories x 4 continuations; reopened with fresh templates")
+	if c.Bound == "" {
+		c.Bound = "fault sweep: every call of every kind"
+	}
+}
+
 func (s *vStoreSys) decodes() int { return vSegmentDecodes(s.env.fs) }
 
 func (s *vStoreSys) Apply(op vOp, hist []vOp, check bool) {
@@ -202,6 +282,22 @@ func (s *vStoreSys) Apply(op vOp, hist []vOp, check bool) {
 				}
 			}
 		}
+	case "FlushFault":
+		s.nFault++
+		var err error
+		s.checkSegmentFiles(h())
+		mark := len(s.env.fs.Log)
+		s.env.fs.FailOn(vC09FaultKinds[op.A], op.B)
+		s.env.do(func() { err = s.st.Flush() })
+		s.env.fs.ClearFaults()
+		s.abandon(h(), mark, err)
+		if s.env.dead == "" && err == nil {
+			// acknowledged all the same (the fault may not have been reached, or was
+			// survivable): the promise holds
+			for _, d := range s.live {
+				d.durable = true
+			}
+		}
 	case "Rotate":
 		s.env.do(func() { s.st.memtableQueue.Rotate() })
 	case "Drain":
@@ -223,14 +319,26 @@ func (s *vStoreSys) Apply(op vOp, hist []vOp, check bool) {
 		}
 	case "CloseReopen":
 		var err error
+		s.checkSegmentFiles(h())
+		mark := len(s.env.fs.Log)
+		if op.A > 0 {
+			s.env.fs.FailOn(vC09FaultKinds[op.A-1], op.B)
+		}
 		s.env.do(func() { err = s.st.Close() })
+		s.env.fs.ClearFaults()
+		if op.A > 0 {
+			s.abandon(h(), mark, err)
+		}
 		if s.env.dead != "" {
 			break
 		}
 		if err != nil {
-			if check {
+			if check && op.A == 0 {
 				s.c.Violation("close-failed", "", s.cfgS, h(), err.Error())
 			}
+			// a Close that failed may have left the lock behind; the next session starts
+			// like a new process would (C10/C17 judge the lock itself)
+			s.env.fs.RemoveRaw(vStoreDir + "/LOCK")
 		} else {
 			for _, d := range s.live {
 				d.durable = true
@@ -293,6 +401,21 @@ func (s *vStoreSys) checkSegmentFiles(h []string) {
 			}
 			s.segNames[op.Path] = ""
 			s.c.Nontrivial("segfile|" + s.cfgS + "|" + strings.Join(h, ";") + op.Path)
+		}
+	}
+}
+
+// abandon: segment files created by an operation that FAILED and removed again by its own
+// clean-up never belonged to a segment; creating the same names later is no reuse.
+func (s *vStoreSys) abandon(h []string, mark int, err error) {
+	log := s.env.fs.Log
+	s.checkSegmentFiles(h)
+	if err == nil {
+		return
+	}
+	for _, op := range log[mark:] {
+		if op.Kind == "create" && vSegRe.MatchString(op.Path) && !s.env.fs.Exists(op.Path) {
+			delete(s.segNames, op.Path)
 		}
 	}
 }
@@ -385,7 +508,7 @@ func (s *vStoreSys) Key() string {
 		d := s.live[uint32(id)]
 		fmt.Fprintf(&sb, "%d=%d/%v/%v/%v;", id, d.doc, d.durable, s.decodes() > d.decodesAt, s.compacts > d.compactAt)
 	}
-	fmt.Fprintf(&sb, "rem%v n%d sess%d bg%d ro%d", vSetStr(s.removed), s.nAdd, s.session, s.nBg, s.nRemOps)
+	fmt.Fprintf(&sb, "rem%v n%d sess%d bg%d ro%d fl%d", vSetStr(s.removed), s.nAdd, s.session, s.nBg, s.nRemOps, s.nFault)
 	return sb.String()
 }
 
@@ -580,6 +703,10 @@ func init() {
 			limit := 1100
 			if tier == "thorough" {
 				limit = 12000
+			}
+			for _, cfg := range []vStoreCfg{{Mem: 2, Thr: 1, Comp: 1000000, Tmpl: "vtm", Vec: "flat"}, {Mem: 0, Thr: 1, Comp: 1000000, Tmpl: "v", Vec: "flat"}} {
+				cfg := cfg
+				sh = append(sh, vShard{Name: "c09/faults/" + strings.ReplaceAll(cfg.String(), " ", ","), Run: func(c *vCtx) { vC09FaultSweep(c, cfg) }})
 			}
 			sh = append(sh, vShard{Name: "c09/segment-identifiers", Run: func(c *vCtx) { vC09Identifiers(c, limit) }})
 			return sh
